@@ -447,16 +447,49 @@ pub fn fresh_op_child(json: &str) -> i32 {
     0
 }
 
-/// parent side: None when the child cannot be spawned or answers nonsense (then no verdict)
-pub fn pristine_outcome(op: &Op) -> Option<Outcome> {
-    let json = serde_json::to_string(op).ok()?;
-    let exe = std::env::current_exe().ok()?;
-    let out = std::process::Command::new(exe).args(["fresh-op", &json]).output().ok()?;
-    if !out.status.success() {
-        return None;
+fn print_outcome(o: &Outcome) {
+    match o {
+        Outcome::Frame(f) => println!("frame {}", hex(f)),
+        Outcome::Error(e) => println!("error {}", e),
+        Outcome::Panic(e) => println!("panic {}", e.replace('\n', " ")),
+        Outcome::Skip => println!("skip"),
     }
-    let text = String::from_utf8_lossy(&out.stdout);
-    let line = text.lines().next()?.trim().to_string();
+}
+
+/// child: run a whole history (JSON list of ops on stdin) on ONE builder in this fresh process and
+/// print "<index> <outcome>" of the last operation that was not skipped
+pub fn history_child() -> i32 {
+    let mut json = String::new();
+    if std::io::Read::read_to_string(&mut std::io::stdin(), &mut json).is_err() {
+        return 2;
+    }
+    let ops: Vec<Op> = match serde_json::from_str(&json) {
+        Ok(o) => o,
+        Err(e) => {
+            println!("bad {}", e);
+            return 2;
+        }
+    };
+    let mut b = MessageBuilder::new();
+    let mut last: Option<(usize, Outcome)> = None;
+    for (i, op) in ops.iter().enumerate() {
+        let msg = op_message(op);
+        let (o, _) = run_op(&mut b, op, &msg);
+        if o != Outcome::Skip {
+            last = Some((i, o));
+        }
+    }
+    match last {
+        Some((i, o)) => {
+            print!("{} ", i);
+            print_outcome(&o);
+        }
+        None => println!("0 skip"),
+    }
+    0
+}
+
+fn parse_outcome(line: &str) -> Option<Outcome> {
     if let Some(h) = line.strip_prefix("frame ") {
         let h = h.trim();
         if h.len() % 2 != 0 {
@@ -476,6 +509,143 @@ pub fn pristine_outcome(op: &Op) -> Option<Outcome> {
     } else {
         None
     }
+}
+
+/// the history run in a pristine child: (index of the last non-skipped op, its outcome)
+pub fn history_outcome(ops: &[Op]) -> Option<(usize, Outcome)> {
+    use std::io::Write;
+    let json = serde_json::to_string(ops).ok()?;
+    let exe = std::env::current_exe().ok()?;
+    let mut child = std::process::Command::new(exe).args(["judge-history", "-"]).stdin(std::process::Stdio::piped()).stdout(std::process::Stdio::piped()).stderr(std::process::Stdio::null()).spawn().ok()?;
+    child.stdin.take()?.write_all(json.as_bytes()).ok()?;
+    let out = child.wait_with_output().ok()?;
+    if !out.status.success() {
+        return None;
+    }
+    let text = String::from_utf8_lossy(&out.stdout);
+    let line = text.lines().next()?.trim().to_string();
+    let (idx, rest) = line.split_once(' ')?;
+    Some((idx.parse().ok()?, parse_outcome(rest)?))
+}
+
+fn show_outcome(o: &Outcome) -> String {
+    match o {
+        Outcome::Frame(f) => format!("frame [{}..] ({} bytes)", hex(&f[..f.len().min(16)]), f.len()),
+        Outcome::Error(e) | Outcome::Panic(e) => e.clone(),
+        Outcome::Skip => "skip".into(),
+    }
+}
+
+/// history in one pristine child vs. its last op on a fresh builder in another pristine child
+pub fn isolated_verdict(trace: &BuilderTrace) -> Option<Violation> {
+    let (i, got) = history_outcome(&trace.ops)?;
+    let op = trace.ops.get(i)?;
+    let want = pristine_outcome(op)?;
+    let same = match (&got, &want) {
+        (Outcome::Panic(_), Outcome::Panic(_)) => true,
+        (a, b) => a == b,
+    };
+    if same || want == Outcome::Skip {
+        return None;
+    }
+    Some(Violation::new(
+        "C12",
+        if is_generated(op) { "C12.g" } else if matches!((&got, &want), (Outcome::Frame(_), Outcome::Frame(_))) { "C12.a" } else { "C12.b" },
+        format!(
+            "op #{} {}: a builder that ran this history of {} operations in a fresh process gives {}, a fresh builder in a fresh process gives {}{}",
+            i,
+            op_brief(op),
+            trace.ops.len(),
+            show_outcome(&got),
+            show_outcome(&want),
+            match (&got, &want) {
+                (Outcome::Frame(a), Outcome::Frame(b)) => format!(" ({})", first_diff(a, b)),
+                _ => String::new(),
+            }
+        ),
+    ))
+}
+
+thread_local! {
+    /// operations this worker thread has executed in earlier runs: the first ones and the most recent
+    static PAST_HEAD: std::cell::RefCell<Vec<Op>> = std::cell::RefCell::new(Vec::new());
+    static PAST_RECENT: std::cell::RefCell<std::collections::VecDeque<Op>> = std::cell::RefCell::new(std::collections::VecDeque::new());
+}
+
+pub fn remember_ops(ops: &[Op]) {
+    PAST_HEAD.with(|h| {
+        let mut h = h.borrow_mut();
+        for op in ops {
+            if h.len() >= 400 {
+                break;
+            }
+            h.push(op.clone());
+        }
+    });
+    PAST_RECENT.with(|q| {
+        let mut q = q.borrow_mut();
+        for op in ops.iter().rev().take(400).rev() {
+            q.push_back(op.clone());
+            if q.len() > 400 {
+                q.pop_front();
+            }
+        }
+    });
+}
+
+/// Is THIS (long-running) process polluted relative to a pristine one? A fresh builder here and a
+/// fresh builder in a pristine child must agree on the trace's last operation. If they do not, the
+/// code under test keeps process-wide state; a replayable witness is reconstructed from what this
+/// worker thread executed before (first and most recent operations) + the operation.
+pub fn pollution_check(trace: &BuilderTrace) -> Option<(Violation, BuilderTrace)> {
+    let op = trace.ops.last()?;
+    let msg = op_message(op);
+    let mut fresh = MessageBuilder::new();
+    let (here, _) = run_op(&mut fresh, op, &msg);
+    if here == Outcome::Skip {
+        return None;
+    }
+    let want = pristine_outcome(op)?;
+    let same = match (&here, &want) {
+        (Outcome::Panic(_), Outcome::Panic(_)) => true,
+        (a, b) => a == b,
+    };
+    if same {
+        return None;
+    }
+    let mut ops: Vec<Op> = PAST_HEAD.with(|h| h.borrow().clone());
+    PAST_RECENT.with(|q| ops.extend(q.borrow().iter().cloned()));
+    ops.extend(trace.ops.iter().cloned());
+    let cand = BuilderTrace { property: "C12".into(), seed: trace.seed, run: trace.run, origin: format!("reconstructed_past+{}", trace.origin), ops, pristine_reference: true };
+    if let Some(v) = isolated_verdict(&cand) {
+        return Some((v, cand));
+    }
+    Some((
+        Violation::new(
+            "C12",
+            "C12.a",
+            format!(
+                "{}: a fresh builder in this long-running worker gives {}, a fresh builder in a pristine process gives {} - the code under test keeps state outside the builder; no replayable witness could be reconstructed from the worker's recorded past",
+                op_brief(op),
+                show_outcome(&here),
+                show_outcome(&want)
+            ),
+        ),
+        trace.clone(),
+    ))
+}
+
+/// parent side: None when the child cannot be spawned or answers nonsense (then no verdict)
+pub fn pristine_outcome(op: &Op) -> Option<Outcome> {
+    let json = serde_json::to_string(op).ok()?;
+    let exe = std::env::current_exe().ok()?;
+    let out = std::process::Command::new(exe).args(["fresh-op", &json]).output().ok()?;
+    if !out.status.success() {
+        return None;
+    }
+    let text = String::from_utf8_lossy(&out.stdout);
+    let line = text.lines().next()?.trim().to_string();
+    parse_outcome(&line)
 }
 
 pub fn is_judged(_op: &Op) -> bool {
@@ -736,44 +906,19 @@ pub fn judge_builder(trace: &BuilderTrace, mut stats: Option<&mut Stats>) -> Opt
         last_class = outcome_class;
         has_run = true;
     }
-    // pristine-process reference for the last operation: a fresh builder in a fresh PROCESS.
-    // State the code under test keeps process-wide (lazily filled tables, "first time only"
-    // latches) is shared by every builder of this process, fresh ones included.
-    if trace.pristine_reference {
-        if let Some((i, got)) = &last_got {
-            let op = &trace.ops[*i];
-            if let Some(want) = pristine_outcome(op) {
-                evals += 1;
-                let same = match (got, &want) {
-                    (Outcome::Panic(_), Outcome::Panic(_)) => true,
-                    (a, b) => a == b,
-                };
-                if let Some(st) = stats.as_deref_mut() {
-                    st.probe("c12_pristine_process_reference");
-                }
-                if !same && want != Outcome::Skip {
-                    let show = |o: &Outcome| match o {
-                        Outcome::Frame(f) => format!("frame [{}..] ({} bytes)", hex(&f[..f.len().min(16)]), f.len()),
-                        Outcome::Error(e) | Outcome::Panic(e) => e.clone(),
-                        Outcome::Skip => "skip".into(),
-                    };
-                    return Some(Violation::new(
-                        "C12",
-                        if is_generated(op) { "C12.g" } else if matches!((got, &want), (Outcome::Frame(_), Outcome::Frame(_))) { "C12.a" } else { "C12.b" },
-                        format!(
-                            "op #{} {}: after this history the builder gives {}, a fresh builder in a pristine process gives {}{}",
-                            i,
-                            op_brief(op),
-                            show(got),
-                            show(&want),
-                            match (got, &want) {
-                                (Outcome::Frame(a), Outcome::Frame(b)) => format!(" ({})", first_diff(a, b)),
-                                _ => String::new(),
-                            }
-                        ),
-                    ));
-                }
-            }
+    // pristine-process reference for the last operation. State the code under test keeps
+    // process-wide (lazily filled tables, "first time only" latches) is shared by every builder
+    // of THIS process, fresh ones included, and this process has a past. So the verdict is
+    // computed in isolation: one child process runs the whole history on one builder, another
+    // runs the last operation on a fresh builder; both start pristine, and the verdict is a
+    // function of the trace alone (replayable, minimisable).
+    if trace.pristine_reference && last_got.is_some() {
+        evals += 1;
+        if let Some(st) = stats.as_deref_mut() {
+            st.probe("c12_pristine_process_reference");
+        }
+        if let Some(v) = isolated_verdict(trace) {
+            return Some(v);
         }
     }
     if let Some(st) = stats {
